@@ -162,6 +162,7 @@ def verify_case(reg, con, case, hooks=None):
     eng._top_fid = fid
     st = st.with_frame(fid, None, a)
     E0 = Env(a, st, eng=eng)
+    st = st.assume(*eng.kind_axioms(st))
     st = st.assume(con.pre(E0), case.requires(E0))
     eng.entry_state, eng.entry_args = st, a
     try:
@@ -184,9 +185,14 @@ def verify_case(reg, con, case, hooks=None):
         tag = "return" if k == "return" else f"raise:{v.cls}"
         names[tag] = names.get(tag, 0) + 1
         what = f"exit={tag}#{names[tag]}"
-        E = Env(a, st, s, res=v if k == "return" else None, exc=v.cls if k == "raise" else None, eng=eng)
+        E = Env(a, st, s, res=v if k == "return" else None, exc=v.cls if k == "raise" else None, eng=eng, role="goal")
         try:
-            if case.raises is None:
+            mr = getattr(case, "may_raise", None)
+            if case.raises is None and k == "raise" and mr and exc_isa(v.cls, mr):
+                er = getattr(case, "ensures_on_raise", None) or case.ensures
+                goal = er(E)
+                fr = frame_goal(eng, con, E, st, s, con.modifies(Env(a, st, eng=eng)))
+            elif case.raises is None:
                 if k != "return":
                     eng.obls.append(Obl(f"{eng.prefix}/{what}/unexpected-exception", s.pc, z3.BoolVal(False), "post",
                                         {"exit": tag}))
